@@ -159,10 +159,9 @@ def hasNl (s : Str) : Bool := s.any (· = '\n')
 
 def forbiddenNameChars : Str := " <>{}[]?*\"#%\\^|~`$&,;:/".toList
 
-/-- `re.search(r"^.*[ <>{}[\]?*\"#%\\^|~`$&,;:/].*$", name)` -/
-def nameRegex (s : Str) : Bool :=
-  let b := stripNl s
-  !hasNl b && b.any (fun c => forbiddenNameChars.contains c)
+/-- `re.search(r"[ <>{}[\]?*\"#%\\^|~`$&,;:/]", name)`: a forbidden character anywhere in the name
+(the earlier pattern `^.*[…].*$` did not look past a line feed; repaired by the C17-F1 fix) -/
+def nameRegex (s : Str) : Bool := s.any (fun c => forbiddenNameChars.contains c)
 
 def validName (s : Str) : Bool := 0 < s.length && s.length < 81 && !nameRegex s
 
